@@ -56,6 +56,10 @@ pub enum Recip {
     User(u8),
     /// a native-chain account
     Native(u8),
+    /// the native-chain staker account itself (so one receiver gets transfers of both denoms)
+    Staker,
+    /// checksum-valid bech32 under the native (even) or protocol (odd) prefix whose data part is not whole bytes
+    OddData(u8),
     /// protocol-chain contract (32-byte) address
     Contract32,
     /// malformed: damaged checksum / other prefix / garbage
@@ -453,6 +457,8 @@ pub fn op_strategy(p: &Profile) -> BoxedStrategy<Op> {
         6 => Just(Recip::Sender),
         3 => (0u8..8).prop_map(Recip::User),
         5 => (0u8..4).prop_map(Recip::Native),
+        1 => Just(Recip::Staker),
+        1 => (0u8..8).prop_map(Recip::OddData),
         1 => Just(Recip::Contract32),
         1 => (0u8..6).prop_map(Recip::Bad),
     ];
